@@ -253,11 +253,75 @@ def scan_shared(tree, parents, class_attrs, module_names):
         elif isinstance(base, ast.Name) and _is_shared_name(base, parents, module_names):
             if _exact_memo(tree, parents, node, base):
                 continue
+            if base.id in _wo(tree, parents):
+                continue          # write-only instrumentation: never read by the library, cannot reach a result
             out.append((node, f"{what} on module-level `{base.id}`"))
     return out
 
 
+_WO_CACHE = {}
+
+
+def _wo(tree, parents):
+    k = id(tree)
+    if k not in _WO_CACHE:
+        _WO_CACHE[k] = write_only_names(tree, parents) if isinstance(tree, ast.Module) else set()
+    return _WO_CACHE[k]
+
+
 DEFERRED_MEMOS = []      # (node, function name, table text): memo-shaped stores with a computed key, judged by R-HISTORY
+WRITE_ONLY_TABLES = []   # (module tree id, name): instrumentation the library writes but never reads
+
+
+def write_only_names(tree, parents):
+    """Module-level names bound to a fresh container / counter that the library only WRITES: every occurrence is the
+    definition, the target of a subscript store / augmented assignment (`T[k] += 1`, `T[k] = v`) or the receiver of
+    `.update(...)` / `.append(...)` / `.add(...)` used as a statement.  Such a table cannot influence any result."""
+    cands = {}
+    for st in tree.body:
+        tgt = None
+        if isinstance(st, ast.Assign) and len(st.targets) == 1 and isinstance(st.targets[0], ast.Name):
+            tgt, val = st.targets[0].id, st.value
+        elif isinstance(st, ast.AnnAssign) and isinstance(st.target, ast.Name) and st.value is not None:
+            tgt, val = st.target.id, st.value
+        if tgt is None:
+            continue
+        fresh = isinstance(val, (ast.Dict, ast.List, ast.Set)) or \
+            (isinstance(val, ast.Call) and ast.unparse(val.func).split(".")[-1] in ("dict", "list", "set", "Counter", "defaultdict", "OrderedDict", "deque"))
+        if fresh:
+            cands[tgt] = st
+    out = set()
+    for name, defn in cands.items():
+        ok = True
+        for n in ast.walk(tree):
+            if not (isinstance(n, ast.Name) and n.id == name):
+                continue
+            p = parents.get(n)
+            if p is defn or (isinstance(p, (ast.Assign, ast.AnnAssign)) and parents.get(p) is tree and isinstance(n.ctx, ast.Store)):
+                continue
+            # T[k] ...   as store / augmented-assignment target
+            if isinstance(p, ast.Subscript) and p.value is n:
+                pp = parents.get(p)
+                if isinstance(p.ctx, (ast.Store, ast.Del)) or (isinstance(pp, ast.AugAssign) and pp.target is p):
+                    continue
+            # T.update(...) / T.append(...) as a statement
+            if isinstance(p, ast.Attribute) and p.value is n and p.attr in ("update", "append", "add", "extend", "subtract", "setdefault"):
+                call = parents.get(p)
+                if isinstance(call, ast.Call) and call.func is p and isinstance(parents.get(call), ast.Expr):
+                    continue
+            # T.get(k, 0) / T[k] read INSIDE the value of a store into the same table (`T[k] = T.get(k, 0) + n`)
+            st = p
+            while st is not None and not isinstance(st, ast.stmt):
+                st = parents.get(st)
+            if isinstance(st, (ast.Assign, ast.AugAssign)):
+                tg = st.targets if isinstance(st, ast.Assign) else [st.target]
+                if all(isinstance(t, ast.Subscript) and isinstance(t.value, ast.Name) and t.value.id == name for t in tg):
+                    continue
+            ok = False
+            break
+        if ok:
+            out.add(name)
+    return out
 
 
 def _table_uses_confined(tree, parents, table, fn):
@@ -899,7 +963,7 @@ class P:
         _MEMO[self.x] = other
         items.append(1)
         global _MEMO
-        return "|".join({"a", "b"}) + str(hash(other)) + os.environ.get("X", "")
+        return "|".join({"a", "b"}) + str(hash(other)) + os.environ.get("X", "") + str(len(_MEMO)) + str(time.time())
 '''
 
 
@@ -1186,19 +1250,100 @@ def run(ctx, model: Model):
 PURE_FUNCTOOLS = {"reduce", "partial", "wraps", "cmp_to_key", "total_ordering"}     # no cache, no hidden state
 
 
+LOG_METHODS = {"debug", "info", "warning", "warn", "error", "exception", "critical", "log"}
+
+
+def _sink_only(node, parents, wo, depth=0):
+    """Does the value of `node` flow ONLY into sinks that cannot reach a result - a logger call, a store into a
+    write-only instrumentation table, or a local name all of whose uses do?"""
+    p, child = parents.get(node), node
+    while p is not None and not isinstance(p, ast.stmt):
+        if isinstance(p, ast.Call) and isinstance(p.func, ast.Attribute) and p.func.attr in LOG_METHODS and child is not p.func:
+            return True
+        child, p = p, parents.get(p)
+    # handed to a helper of the same module whose parameter only flows into sinks (`_record("seconds", t1 - t0)`)
+    q, ch = parents.get(node), node
+    while q is not None and not isinstance(q, ast.stmt):
+        if isinstance(q, ast.Call) and ch in q.args and depth < 3:
+            fname = q.func.attr if isinstance(q.func, ast.Attribute) else (q.func.id if isinstance(q.func, ast.Name) else None)
+            root = q
+            while parents.get(root) is not None:
+                root = parents.get(root)
+            defs = [d for d in ast.walk(root) if isinstance(d, ast.FunctionDef) and d.name == fname]
+            if len(defs) == 1:
+                ps = [a.arg for a in defs[0].args.posonlyargs + defs[0].args.args if a.arg not in ("self", "cls")]
+                i = q.args.index(ch)
+                if i < len(ps):
+                    loads = [x for x in ast.walk(defs[0]) if isinstance(x, ast.Name) and x.id == ps[i] and isinstance(x.ctx, ast.Load)]
+                    if loads and all(_sink_only(x, parents, wo, depth + 1) for x in loads):
+                        return True
+            break
+        ch, q = q, parents.get(q)
+    if isinstance(p, ast.Expr):
+        return False
+    if isinstance(p, (ast.Assign, ast.AugAssign, ast.AnnAssign)):
+        tgts = p.targets if isinstance(p, ast.Assign) else [p.target]
+        if all(isinstance(t, ast.Subscript) and isinstance(t.value, ast.Name) and t.value.id in wo for t in tgts):
+            return True
+        if depth < 3 and len(tgts) == 1 and isinstance(tgts[0], ast.Name):
+            fn = _direct_function(p, parents)
+            if fn is not None:
+                loads = [x for x in ast.walk(fn) if isinstance(x, ast.Name) and x.id == tgts[0].id and isinstance(x.ctx, ast.Load)]
+                return bool(loads) and all(_sink_only(x, parents, wo, depth + 1) for x in loads)
+    return False
+
+
 def scan_hidden(tree):
     out = []
     functools_aliases = set()
     from_cache = set()
+    parents = _parents(tree)
+    wo = write_only_names(tree, parents) if isinstance(tree, ast.Module) else set()
+    clock_aliases = {}
+    # code under `if NAME:` where NAME is a module-level constant False that is bound exactly once is dead
+    false_consts = set()
+    if isinstance(tree, ast.Module):
+        binds = {}
+        for x in ast.walk(tree):
+            if isinstance(x, ast.Name) and isinstance(x.ctx, ast.Store):
+                binds[x.id] = binds.get(x.id, 0) + 1
+        for st in tree.body:
+            tgt, val = (st.targets[0], st.value) if isinstance(st, ast.Assign) and len(st.targets) == 1 else \
+                ((st.target, st.value) if isinstance(st, ast.AnnAssign) else (None, None))
+            if isinstance(tgt, ast.Name) and isinstance(val, ast.Constant) and val.value is False and binds.get(tgt.id) == 1:
+                false_consts.add(tgt.id)
+    dead = set()
+    for x in ast.walk(tree):
+        if isinstance(x, ast.If) and isinstance(x.test, ast.Name) and x.test.id in false_consts:
+            for b in x.body:
+                for y in ast.walk(b):
+                    dead.add(id(y))
     for n in ast.walk(tree):
+        if id(n) in dead:
+            continue
         if isinstance(n, ast.Call) and isinstance(n.func, ast.Name) and n.func.id in HIDDEN_CALLS:
+            if n.func.id == "id" and _sink_only(n, parents, wo):
+                continue          # an identity that is only logged / counted cannot reach a result
             out.append((n, f"call of {n.func.id}()"))
         if isinstance(n, ast.Import):
             for a in n.names:
                 if a.name == "functools":
                     functools_aliases.add(a.asname or a.name)      # judged by what is used from it, below
+                elif a.name == "time":
+                    clock_aliases[a.asname or a.name] = n           # judged by where the readings go, below
                 elif a.name.split(".")[0] in HIDDEN_MODULES:
                     out.append((n, f"import of {a.name}"))
+    for alias, imp in clock_aliases.items():
+        uses = [x for x in ast.walk(tree) if isinstance(x, ast.Name) and x.id == alias and isinstance(x.ctx, ast.Load)]
+        ok = True
+        for u in uses:
+            att = parents.get(u)
+            call = parents.get(att) if isinstance(att, ast.Attribute) else None
+            if not (isinstance(att, ast.Attribute) and isinstance(call, ast.Call) and call.func is att and _sink_only(call, parents, wo)):
+                ok = False
+        if not ok:
+            out.append((imp, "import of time (a clock reading reaches something else than a log / a write-only statistics table)"))
+    for n in ast.walk(tree):
         if isinstance(n, ast.ImportFrom) and n.module and n.module.split(".")[0] in HIDDEN_MODULES:
             if n.module == "functools" and all(a.name in PURE_FUNCTOOLS or a.name in ("lru_cache", "cache") for a in n.names):
                 for a in n.names:
